@@ -51,7 +51,7 @@ pub fn meta() -> CheckMeta {
             "sin/exp of the platform libm are accurate to a few ulp".into(),
         ],
         exhaustive: false,
-        stuck_is_violation: false,
+        stuck_is_violation: true,
     }
 }
 
